@@ -269,6 +269,7 @@ pub fn run(input: &[u8], scn: &str, rec: &mut Rec) {
         rec.push_n("onparse.calls", l.calls);
         if describe {
             rec.push_s("onparse.lines", &l.lines.join("\n"));
+            rec.push_s("onparse.localnames", &l.local_names.join("\n"));
         }
     }
     if o.has("addimp") {
@@ -352,6 +353,35 @@ pub fn run(input: &[u8], scn: &str, rec: &mut Rec) {
                 Ok(Ok(mut p3)) => {
                     let _ = guarded(|| insert_markers(&mut p3.module, seed));
                     emit_into(rec, "reedit_fresh", &mut p3.module);
+                }
+            }
+        }
+        if o.has("emptied") {
+            // after the first emission everything that keeps code alive is taken away (exports, start function) and the
+            // GC pass runs: where no function is left, the next emission has no code to describe
+            let r = guarded(|| {
+                let ids: Vec<walrus::ExportId> = p.module.exports.iter().map(|e| e.id()).collect();
+                for id in ids {
+                    p.module.exports.delete(id);
+                }
+                p.module.start = None;
+                walrus::passes::gc::run(&mut p.module);
+            });
+            match r {
+                Err(pan) => rec.push_s("panic.emptied.gc", &pan),
+                Ok(()) => {
+                    if let Some(pr) = &pr {
+                        let ids = p.onparse.lock().unwrap().ids.clone();
+                        if p.module.customs.delete_typed::<Probe>().is_some() {
+                            p.module.customs.add(Probe::capture(&p.module, &ids, pr.clone()));
+                        }
+                        *pr.lock().unwrap() = ProbeOut::default();
+                    }
+                    rec.push_n("emptied.local_funcs", p.module.funcs.iter_local().count() as u64);
+                    emit_into(rec, "emptied", &mut p.module);
+                    if let Some(pr) = &pr {
+                        log_probe(rec, "emptied", pr);
+                    }
                 }
             }
         }
